@@ -4715,7 +4715,7 @@ struct gjBVal_info gjBValInfoTable[] = {
 	{FOAM_BVal_SIntShiftDn,  GJ_Op,       JCO_OP_ShiftDn},
 	{FOAM_BVal_SIntBit,      GJ_Apply,   0,"foamj.Math",      "bit"},
 
-	{FOAM_BVal_SIntNot,      GJ_Op,     JCO_OP_XOr, "0"},
+	{FOAM_BVal_SIntNot,      GJ_Op,     JCO_OP_XOr, "-1"},
 	{FOAM_BVal_SIntAnd,      GJ_Op,     JCO_OP_And},
 	{FOAM_BVal_SIntOr,       GJ_Op,     JCO_OP_Or},
 	{FOAM_BVal_SIntXOr,      GJ_Op,     JCO_OP_XOr},
@@ -4753,7 +4753,7 @@ struct gjBVal_info gjBValInfoTable[] = {
 	{FOAM_BVal_BIntSIPower,  GJ_Apply, 0,   "foamj.Math",   "sIPower"},
 	{FOAM_BVal_BIntBIPower,  GJ_Apply, 0,   "foamj.Math",   "bIPower"},
 	{FOAM_BVal_BIntPowerMod, GJ_Apply, 0,   "foamj.Math",   "powerMod"},
-	{FOAM_BVal_BIntLength,   GJ_Meth, 0,   "bitCount"},
+	{FOAM_BVal_BIntLength,   GJ_Meth, 0,   "bitLength"},
 	{FOAM_BVal_BIntShiftUp,  GJ_Apply, 0,   "foamj.Math",   "shiftUp"},
 	{FOAM_BVal_BIntShiftDn,  GJ_Apply, 0,   "foamj.Math",   "shiftDn"},
 	{FOAM_BVal_BIntShiftRem, GJ_Apply, 0,   "foamj.Math",   "shiftRem"},
